@@ -94,8 +94,12 @@ func idx(ix []int) string {
 }
 
 func typeLine(t reflect.Type) string {
+	pkg := strconv.Quote(t.PkgPath())
+	if Avoid["C15-named-iface-pkgpath"] && t.Kind() == reflect.Interface && t.Name() != "" {
+		pkg = "(avoided)"
+	}
 	return "kind=" + t.Kind().String() + " name=" + strconv.Quote(t.Name()) + " str=" + strconv.Quote(t.String()) +
-		" pkg=" + strconv.Quote(t.PkgPath()) + " cmp=" + b2s(t.Comparable()) + " nm=" + itoa(t.NumMethod())
+		" pkg=" + pkg + " cmp=" + b2s(t.Comparable()) + " nm=" + itoa(t.NumMethod())
 }
 
 // Type prints everything reflect knows about t, then about its component types (depth-limited).
@@ -263,6 +267,10 @@ func typeMethods(pre string, t reflect.Type) {
 // derived types: PointerTo/SliceOf/ArrayOf/ChanOf/MapOf/FuncOf must describe themselves like the
 // corresponding source-level types.
 func derived(pre string, t reflect.Type) {
+	if Avoid["C15-ptrto-extra-star"] && t.Kind() == reflect.Pointer {
+		P(pre + "derived avoided (pointer to pointer)")
+		return
+	}
 	pt := reflect.PointerTo(t)
 	P(pre + "ptrto " + typeLine(pt) + " elemsame=" + b2s(pt.Elem() == t) + " again=" + b2s(reflect.PointerTo(t) == pt))
 	for i := 0; i < pt.NumMethod(); i++ {
@@ -446,7 +454,11 @@ func Value(tag string, p any) {
 		z := reflect.Zero(t)
 		P("V " + tag + " zero " + Dump(z) + " iszero=" + b2s(z.IsZero()) + " canset=" + b2s(z.CanSet()) + " de=" + b2s(reflect.DeepEqual(z.Interface(), v.Interface())))
 		n := reflect.New(t)
-		P("V " + tag + " new " + strconv.Quote(n.Type().String()) + " " + Dump(n) + " canset=" + b2s(n.Elem().CanSet()))
+		ns := strconv.Quote(n.Type().String())
+		if Avoid["C15-ptrto-extra-star"] && t.Kind() == reflect.Pointer {
+			ns = "(avoided)"
+		}
+		P("V " + tag + " new " + ns + " " + Dump(n) + " canset=" + b2s(n.Elem().CanSet()))
 		n.Elem().Set(v)
 		P("V " + tag + " set " + Dump(n.Elem()) + " de=" + b2s(reflect.DeepEqual(n.Elem().Interface(), v.Interface())))
 		n.Elem().SetZero()
@@ -678,17 +690,6 @@ func kindOps(pre string, v reflect.Value) {
 		if !v.IsNil() {
 			callAndPrint(pre+" call", v)
 		}
-		Try("makefunc", func() {
-			mf := reflect.MakeFunc(t, func(args []reflect.Value) []reflect.Value {
-				out := make([]reflect.Value, t.NumOut())
-				for i := range out {
-					out[i] = argFor(t.Out(i), len(args)+i)
-				}
-				return out
-			})
-			P(pre + " makefunc type=" + strconv.Quote(mf.Type().String()) + " kind=" + mf.Kind().String())
-			callAndPrint(pre+" makefunc-call", mf)
-		})
 	}
 }
 
@@ -877,8 +878,22 @@ func argForD(t reflect.Type, k int, d int) reflect.Value {
 // callable: a nil interface argument with methods would make the callee panic
 func callable(ft reflect.Type) bool {
 	for i := 0; i < ft.NumIn(); i++ {
-		if ft.In(i).Kind() == reflect.Interface && ft.In(i).NumMethod() > 0 {
+		in := ft.In(i)
+		if in.Kind() == reflect.Interface && in.NumMethod() > 0 {
 			return false
+		}
+		if Avoid["C15-call-pointer-args"] && pointerShaped(in.Kind()) {
+			return false
+		}
+		if Avoid["C15-call-zero-size"] && hasZeroSize(in, 0) {
+			return false
+		}
+	}
+	if Avoid["C15-call-zero-size"] {
+		for i := 0; i < ft.NumOut(); i++ {
+			if hasZeroSize(ft.Out(i), 0) {
+				return false
+			}
 		}
 	}
 	return true
@@ -889,7 +904,7 @@ func callAndPrint(pre string, f reflect.Value) {
 		ft := f.Type()
 		n := ft.NumIn()
 		if !callable(ft) {
-			P(pre + " not called (interface argument)")
+			P(pre + " not called")
 			return
 		}
 		args := make([]reflect.Value, 0, n+2)
@@ -941,22 +956,18 @@ func TypeCalls(tag string, p any) {
 			recv = recv.Elem()
 			t = recv.Type()
 		}
+		if recv.Kind() == reflect.Pointer && recv.IsNil() {
+			continue
+		}
 		for i := 0; i < t.NumMethod(); i++ {
 			m := t.Method(i)
 			pre := "C " + tag + " " + strconv.Quote(t.String()) + "." + m.Name
 			Try(pre, func() {
 				ft := m.Func.Type()
-				if !callable(m.Type) && m.Name != "" {
-					ok := true
-					for j := 1; j < ft.NumIn(); j++ {
-						if ft.In(j).Kind() == reflect.Interface && ft.In(j).NumMethod() > 0 {
-							ok = false
-						}
-					}
-					if !ok {
-						P(pre + " not called (interface argument)")
-						return
-					}
+				// the receiver is argument 0 here: it is an ordinary (addressable) argument Value
+				if !callable(ft) {
+					P(pre + " not called")
+					return
 				}
 				args := []reflect.Value{recv}
 				for j := 1; j < ft.NumIn(); j++ {
@@ -987,11 +998,19 @@ func Calls(tag string, p any) {
 	for _, recv := range []reflect.Value{pv.Elem(), pv} {
 		t := recv.Type()
 		P("C " + tag + " recv=" + strconv.Quote(t.String()) + " nummethod=" + itoa(recv.NumMethod()))
-		if recv.Kind() == reflect.Interface && recv.IsNil() {
+		if (recv.Kind() == reflect.Interface || recv.Kind() == reflect.Pointer) && recv.IsNil() {
+			continue
+		}
+		if Avoid["C15-method-direct-addressable"] && recv.Kind() != reflect.Pointer && recv.Kind() != reflect.Interface && directShaped(t, 0) {
+			P("C " + tag + " avoided (value-receiver call through an addressable pointer-shaped value)")
 			continue
 		}
 		for i := 0; i < recv.NumMethod(); i++ {
 			name := t.Method(i).Name
+			if !t.Method(i).IsExported() {
+				P("C " + tag + " " + strconv.Quote(t.String()) + "." + name + " unexported")
+				continue
+			}
 			m := recv.Method(i)
 			pre := "C " + tag + " " + strconv.Quote(t.String()) + "." + name
 			P(pre + " type=" + strconv.Quote(m.Type().String()))
@@ -1014,6 +1033,48 @@ func Calls(tag string, p any) {
 
 // ---------------------------------------------------------------- conversions
 
+func isInt(k reflect.Kind) bool  { return k >= reflect.Int && k <= reflect.Int64 }
+func isUint(k reflect.Kind) bool { return k >= reflect.Uint && k <= reflect.Uintptr }
+
+// narrowing: an integer or float value converted to an integer type that cannot hold it (finding C15-convert-int-narrow).
+func narrowing(v reflect.Value, u reflect.Type) bool {
+	uk := u.Kind()
+	if !isInt(uk) && !isUint(uk) {
+		return false
+	}
+	z := reflect.New(u).Elem()
+	switch k := v.Kind(); {
+	case isInt(k):
+		if isInt(uk) {
+			return z.OverflowInt(v.Int())
+		}
+		return v.Int() < 0 || z.OverflowUint(uint64(v.Int()))
+	case isUint(k):
+		if isUint(uk) {
+			return z.OverflowUint(v.Uint())
+		}
+		return v.Uint() > 1<<62 || z.OverflowInt(int64(v.Uint()))
+	}
+	return false
+}
+
+// floatOutOfRange: converting such a float to the integer type is implementation-defined in Go; never compared.
+func floatOutOfRange(v reflect.Value, u reflect.Type) bool {
+	uk := u.Kind()
+	if (v.Kind() != reflect.Float32 && v.Kind() != reflect.Float64) || (!isInt(uk) && !isUint(uk)) {
+		return false
+	}
+	f := v.Float()
+	if f != f || f > 1e18 || f < -1e18 {
+		return true
+	}
+	z := reflect.New(u).Elem()
+	if isInt(uk) {
+		return z.OverflowInt(int64(f))
+	}
+	return f < 0 || z.OverflowUint(uint64(f))
+}
+
 // Conv converts the value to every partner type it is convertible to.
 func Conv(tag string, p any, partners []reflect.Type) {
 	v := reflect.ValueOf(p).Elem()
@@ -1025,6 +1086,22 @@ func Conv(tag string, p any, partners []reflect.Type) {
 		}
 		pre := "K " + tag + " ->" + itoa(i) + " " + strconv.Quote(u.String())
 		Try(pre, func() {
+			if floatOutOfRange(v, u) {
+				P(pre + " not compared (implementation-defined float to integer conversion)")
+				return
+			}
+			if Avoid["C15-empty-string-to-slice"] && v.Kind() == reflect.String && v.Len() == 0 && u.Kind() == reflect.Slice {
+				P(pre + " avoided (empty string to slice)")
+				return
+			}
+			if Avoid["C15-convert-float32"] && v.Kind() == reflect.Float32 && u.Kind() == reflect.Float32 {
+				P(pre + " avoided (float32 to float32)")
+				return
+			}
+			if Avoid["C15-convert-int-narrow"] && narrowing(v, u) {
+				P(pre + " avoided (narrowing integer conversion)")
+				return
+			}
 			can := v.CanConvert(u)
 			if !can {
 				P(pre + " canconvert=0")
@@ -1093,5 +1170,49 @@ func MkErr(k int) Err {
 
 func MkStr(k int) Str { return Str{[]int{10, 11, 12, 13, 14}[k]} }
 
-// SkipIfacePkgPath is set by generated programs while the finding "named interface PkgPath" is open.
-var SkipIfacePkgPath bool
+// Avoid holds the ids of the open findings whose constructs the walker must not touch (probe + avoid);
+// it is filled by the generated main package before any unit runs.
+var Avoid = map[string]bool{}
+
+// pointerShaped kinds are passed wrongly by reflect.Value.Call when the argument Value is addressable
+// (finding C15-call-pointer-args).
+func pointerShaped(k reflect.Kind) bool {
+	return k == reflect.Pointer || k == reflect.Map || k == reflect.Chan || k == reflect.Func || k == reflect.UnsafePointer
+}
+
+// directShaped: stored directly in an interface word (pointer-shaped kinds and one-field wrappers of them).
+func directShaped(t reflect.Type, d int) bool {
+	if d > 6 {
+		return false
+	}
+	switch t.Kind() {
+	case reflect.Pointer, reflect.Map, reflect.Chan, reflect.Func, reflect.UnsafePointer:
+		return true
+	case reflect.Struct:
+		return t.NumField() == 1 && directShaped(t.Field(0).Type, d+1)
+	case reflect.Array:
+		return t.Len() == 1 && directShaped(t.Elem(), d+1)
+	}
+	return false
+}
+
+// hasZeroSize: the type has a zero-size struct or array component stored by value (finding C15-call-zero-size).
+func hasZeroSize(t reflect.Type, d int) bool {
+	if d > 6 {
+		return false
+	}
+	switch t.Kind() {
+	case reflect.Struct:
+		if t.NumField() == 0 {
+			return true
+		}
+		for i := 0; i < t.NumField(); i++ {
+			if hasZeroSize(t.Field(i).Type, d+1) {
+				return true
+			}
+		}
+	case reflect.Array:
+		return t.Len() == 0 || hasZeroSize(t.Elem(), d+1)
+	}
+	return false
+}
